@@ -137,7 +137,10 @@ def run(ck: Check):
                     stats["structural_ok"] += 1
                     rrows = c01.canon_rows(r["rows"], [False] * len(r["columns"]))
                     mrows = [tuple(x) for x in S.lean_rows(a["rows"])]
-                    f2 = c02.classify({**c, "query": {**c["query"], "metrics": c["query"]["metrics"][:1]}}) == "F2-null-measure-symmetric"
+                    # a symmetric aggregate over a NULL measure leaves an uncancelled hash term whose value depends on the hash function
+                    # (known classes F2 / F26, decided from the input, per metric): such cases are compared structurally only
+                    f2 = any(c02.classify({**c, "query": {**c["query"], "metrics": [mref]}}) in ("F2-null-measure-symmetric", "F26-filtered-symmetric-count")
+                             for mref in c["query"]["metrics"])
                     if r["columns"] != a["columns"] or (not f2 and not c01.bag_equal(rrows, mrows)):
                         disagree += 1
                         if disagree <= 4:
